@@ -142,6 +142,50 @@ def _norm_size(s: str) -> str:
   return s.replace(" ", "")
 
 
+def _sig_guard_exact(lits):
+  """None when the raise guard rejects exactly sig >= 2^NSTATE, else a reason. The guard is `X op E` (or `E op X`) with X
+  the signature (possibly wrapped in int()) and E an arithmetic expression over State.NSTATE; decided by evaluating E
+  for NSTATE in {3, 7, 14} and comparing the largest accepted signature with 2^NSTATE - 1."""
+  import ast as _ast
+
+  if len(lits) != 1:
+    return f"unrecognised guard shape {lits}"
+  text, pol = lits[0]
+  try:
+    node = _ast.parse(text, mode="eval").body
+  except SyntaxError:
+    return f"unparsable guard `{text}`"
+  while isinstance(node, _ast.UnaryOp) and isinstance(node.op, _ast.Not):
+    node, pol = node.operand, not pol
+  if not (isinstance(node, _ast.Compare) and len(node.ops) == 1):
+    return "UNDECIDED"
+  l, r, op = node.left, node.comparators[0], type(node.ops[0]).__name__
+  def has_n(n):
+    return "NSTATE" in _ast.unparse(n)
+  if has_n(l) and not has_n(r):
+    l, r = r, l
+    op = {"Gt": "Lt", "GtE": "LtE", "Lt": "Gt", "LtE": "GtE"}.get(op, op)
+  if has_n(l) or not has_n(r):
+    return f"guard `{text}` does not compare the signature with an expression of NSTATE"
+  if not pol:
+    op = {"Gt": "LtE", "GtE": "Lt", "Lt": "GtE", "LtE": "Gt"}.get(op, op)
+  src = _ast.unparse(r).replace("State.NSTATE.value", "_N").replace("State.NSTATE", "_N").replace("types._N", "_N")
+  for n in (3, 7, 14):
+    try:
+      c = eval(compile(_ast.parse(src, mode="eval"), "<guard>", "eval"), {"__builtins__": {}}, {"_N": n, "int": int})  # arithmetic on one integer symbol only
+    except Exception as e:  # noqa: BLE001
+      return f"bound `{src}` is not arithmetic in NSTATE ({type(e).__name__})"
+    if op == "GtE":
+      max_ok = c - 1
+    elif op == "Gt":
+      max_ok = c
+    else:
+      return f"guard `{text}` rejects small signatures instead of large ones"
+    if max_ok != (1 << n) - 1:
+      return f"for NSTATE={n} the largest accepted signature is {max_ok}, expected {(1 << n) - 1}"
+  return None
+
+
 def run(db, res, tier):
   sm = db.sm
   # the kernels are found through the launches of the public entry points (not by name), so moving a kernel into a
@@ -229,6 +273,18 @@ def run(db, res, tier):
     launches = [e for e in hi.events if e.kind == "launch"]
     ok = bool(raises) and bool(launches) and raises[0].seq < launches[0].seq and any("NSTATE" in t for t, _ in raises[0].pc)
     res.ob(ok, f"{key}|sig-validation", Finding("R-GATE.2", f"{key}|signature-validation", "no `raise` on `sig >= 1 << State.NSTATE` dominating the launch", sm.func(key).file))
+    if ok:
+      # exact bound: the accepted signatures are exactly [.., 2^NSTATE - 1] (decided for the symbolic NSTATE by evaluating
+      # the guard's constant side at several values of NSTATE: the guard is a polynomial/shift expression in NSTATE only)
+      verdict = _sig_guard_exact([(t, pol) for t, pol in raises[0].pc if "NSTATE" in t])
+      if verdict == "UNDECIDED":
+        res.assumptions.append(f"{key}: the signature guard `{raises[0].pc[-1][0]}` is not a single comparison; its exact bound is not decided")
+        verdict = None
+      res.ob(
+        verdict is None,
+        f"{key}|sig-bound",
+        Finding("R-GATE.2", f"{key}|signature-bound", f"the rejecting guard `{raises[0].pc[-1][0]}` does not accept exactly the signatures below 2^NSTATE: {verdict}", raises[0].loc),
+      )
   res.rule_text = "R-LAYOUT: per State bit the (field, size, offsets) triple extracted from the ASTs of _get_state/_set_state equals MuJoCo's mj_stateSize table; bits are visited ascending; get and set are mirror images with float()/bool() cast pairs; R-GATE: every access is dominated by the active mask; signatures >= 2^NSTATE raise before the launch"
   res.explanation = (
     "The state layout is a per-bit table, so checking each of the 13 supported elements against MuJoCo's documented element sizes decides the layout for all 2^14 signatures. "
